@@ -20,6 +20,8 @@ CORRUPTIONS = [
     "ali_uint8", "ali_int32", "ali_float", "ali_longer", "ali_shorter", "ali_rank",
     "ref_uint8", "ref_int32", "ref_float", "ref_dim_mix", "ref_width", "ref_rank3",
     "ref_half_open_start", "ref_half_open_end", "ref_end_over", "ref_start_gt_end", "ref_start_over",
+    # the number of frames itself changes (features re-extracted): alone, or together with the alignment
+    "feat_longer", "feat_shorter", "reextract_longer", "reextract_shorter",
 ]
 
 
@@ -69,6 +71,7 @@ def generate(rng, tier, index):
     ops.append(rng.choice([["validate"], ["fix", rng.randrange(0, 4)], ["info", "strict", 0]]))
     ops.append(["read", rng.choice([None, 1000, "lo"]), rng.choice([None, 1001, "lo"]), rng.random() < 0.5])
     sc["ops"] = ops
+    sc["reuse_ds"] = rng.random() < 0.5  # one long-lived data set object over the whole history (while the file set stays as it is)
     return sc
 
 
@@ -323,7 +326,30 @@ def corrupt(model, utt, kind, arg, res):
             P["feat"][fn] = torch.cat([t, t[:, :1]], 1)
         elif kind == "feat_rank":
             P["feat"][fn] = t.reshape(-1)
+        elif kind == "feat_longer" and t.dim() == 2 and t.shape[0]:
+            P["feat"][fn] = torch.cat([t] + [t[-1:]] * arg, 0)
+        elif kind == "feat_shorter" and t.dim() == 2 and t.shape[0] > arg:
+            P["feat"][fn] = t[: t.shape[0] - arg].clone()
         return [("feat", fn)]
+    if kind.startswith("reextract"):
+        t = P["feat"].get(fn)
+        a = P["ali"].get(fn) if model.present["ali"] else None
+        if not torch.is_tensor(t) or t.dim() != 2 or not t.shape[0]:
+            return []
+        out = []
+        if kind == "reextract_longer":
+            P["feat"][fn] = torch.cat([t] + [t[-1:]] * arg, 0)
+            out.append(("feat", fn))
+            if torch.is_tensor(a) and a.dim() == 1 and a.shape[0]:
+                P["ali"][fn] = torch.cat([a] + [a[-1:]] * arg, 0)
+                out.append(("ali", fn))
+        elif t.shape[0] > arg:
+            P["feat"][fn] = t[: t.shape[0] - arg].clone()
+            out.append(("feat", fn))
+            if torch.is_tensor(a) and a.dim() == 1 and a.shape[0] > arg:
+                P["ali"][fn] = a[: a.shape[0] - arg].clone()
+                out.append(("ali", fn))
+        return out
     if kind.startswith("ali"):
         t = P["ali"].get(fn)
         if not torch.is_tensor(t) or not model.present["ali"]:
@@ -409,7 +435,16 @@ def execute(sc):
                     for fn, t in model.parts[part].items():
                         torch.save(t, model.path(part, fn))
 
+            kept = {}
+
             def dataset(**kw):
+                if sc.get("reuse_ds") and not kw:
+                    if "ds" not in kept:
+                        kept["ds"] = dataset(_fresh=True)
+                    else:
+                        res.bump("fault.data_set_object_reused")
+                    return kept["ds"]
+                kw.pop("_fresh", None)
                 base = dict(file_prefix=sc["prefix"], file_suffix=sc["suffix"], feat_subdir=model.feat_sd, ali_subdir=model.ali_sd, ref_subdir=model.ref_sd,
                             suppress_alis=False, tokens_only=False, warn_on_missing=False)
                 base.update(kw)
@@ -452,11 +487,14 @@ def execute(sc):
                 elif kind == "repair":
                     utt = model.names[op[1] % sc["n"]]
                     fn = model.fn(utt)
+                    if any(model.present[part] and fn not in model.parts[part] for part in ("feat", "ali", "ref")):
+                        kept.clear()  # a removed file comes back: the set of files changes
                     for part in ("feat", "ali", "ref"):
                         if model.present[part]:
                             model.parts[part][fn] = model.orig[utt][part].clone()
                             torch.save(model.parts[part][fn], model.path(part, fn))
                 elif kind == "remove":
+                    kept.clear()  # the set of files changes: a data set object is built anew
                     utt = model.names[op[1] % sc["n"]]
                     fn = model.fn(utt)
                     if model.present[op[2]] and fn in model.parts[op[2]]:
@@ -464,6 +502,7 @@ def execute(sc):
                         os.remove(model.path(op[2], fn))
                         res.bump("fault.file_removed")
                 elif kind == "stray":
+                  kept.clear()
                   for part in (["feat", "ali", "ref"] if op[1] == "all" else [op[1]]):
                     if model.present[part] and op[2] not in model.parts[part]:
                         name = op[2]
